@@ -66,6 +66,8 @@ RULE = ("cases = (automaton, representation class, option tuple (maxlen, with_wo
         "class, #states, #labels, features, mode, maxlen, with_words, edge_words, memo, "
         "length) signatures")
 ASSUMPTIONS = [
+    "integer-typed generator matrices: an image whose exact entries reach 2^62 in modulus is not "
+    "judged (NumPy int64 products wrap around silently; overflow is not a property of the enumeration)",
     "exactly one start vertex; coherent views (C09); the queried state is a vertex",
     "the image of a word is the product of the representation's own generator "
     "matrices (rep.generators read as data) in reading order; inverse generators "
@@ -159,6 +161,18 @@ class Judge:
         self.cache = {}
         self.pcache = {}
         self.complex = any(np.iscomplexobj(g) for g in gens.values())
+        # integer-typed generators: products beyond the int64 range wrap around
+        # silently in NumPy; such images are outside the domain (numerical
+        # overflow, not a property of the enumeration) and are not judged
+        self.integer = any(np.asarray(g).dtype.kind in "iu" for g in gens.values())
+
+    def overflow_rows(self, ref):
+        """boolean mask over the leading axis: |entries| of the exact image at or
+        beyond 2^62 for integer generator data."""
+        ref = np.asarray(ref)
+        if not self.integer or ref.size == 0:
+            return np.zeros(ref.shape[0], dtype=bool)
+        return np.max(np.abs(ref), axis=(1, 2)) >= 2.0 ** 62
 
     def readable(self):
         for (_v, lab) in self.M.delta:
@@ -242,6 +256,7 @@ class Judge:
                 ref = np.array([self.path_matrix(by_spelling[ws][0]) for ws in words])
                 scale = 1.0 + np.max(np.abs(ref), axis=(1, 2))
                 res = np.max(np.abs(arr - ref), axis=(1, 2)) / scale
+                res = np.where(self.overflow_rows(ref), 0.0, res)
                 bad = np.nonzero(~(res <= TOL))[0]
                 if bad.size:
                     i = int(bad[0])
@@ -254,6 +269,8 @@ class Judge:
             worst = 0.0
             for i, ws in enumerate(words):
                 cands = by_mat[ws]
+                if cands and bool(np.any(self.overflow_rows(np.array(cands)))):
+                    continue
                 best, bj = None, None
                 for j, ref in enumerate(cands):
                     r = float(np.max(np.abs(arr[i] - ref)) / (1.0 + np.max(np.abs(ref))))
@@ -274,6 +291,8 @@ class Judge:
         if not paths:
             return 0.0
         ref = np.array([self.path_matrix(w) for w in paths])
+        if bool(np.any(self.overflow_rows(ref))):
+            return 0.0          # integer overflow somewhere in the list: images not judged
         if self.complex:
             a = np.concatenate([arr.real, arr.imag], axis=-1)
             r = np.concatenate([ref.real, ref.imag], axis=-1)
